@@ -10,7 +10,7 @@ HEADER = "From Coq Require Import List Bool.\nImport ListNotations.\nFrom DV Req
 def check(ctx, replay=None):
     build_harness()
     tablegen.main()
-    phase = standard_proof_phase(ctx, PROP, ["theories/Properties/C05.v"])
+    phase = standard_proof_phase(ctx, PROP, ["theories/Properties/C05.v", "theories/Lifetimes/Check.v"])
     cs = gate_run.cases(ctx)
     if replay and "case" in replay.get("replay", {}):
         c = replay["replay"]["case"]
@@ -43,7 +43,7 @@ def check(ctx, replay=None):
         if cls == "lowering-error":
             pos, t = cs[i]
             want = "Holder" if "Struct" in pos else "Op::f"
-            if f"Lowering error in {want}" not in err and viol < 3:
+            if f"Lowering error in {want}" not in err and len(ctx.violations) < 3:
                 viol += 1
                 ctx.violation("direct:error-context", {"case": {"pos": pos, "ty": t}, "backend": b, "what":
                               f"the lowering error does not carry the offending item ({want}) as its context", "stderr": err}, True)
@@ -75,7 +75,7 @@ def check(ctx, replay=None):
             goals.append(f"agree_ret_lifetimes {rp} {cbool(elided)} {cbool(needed)} {cbool(declared)} {cbool(cls == 'ok')}")
             meta.append((None, "c", False, cls, src))
             want_ok = (not elided) and (not needed or declared)
-            if (cls == "ok") != want_ok and viol < 3:
+            if (cls == "ok") != want_ok and len(ctx.violations) < 3:
                 viol += 1
                 why = "has an elided lifetime" if elided else ("uses a type whose definition implies a bound that is not spelled out on the method" if needed and not declared else "is fine")
                 ctx.violation(f"direct:R9:{rp}", {"bridge": src, "what": f"diplomat-tool {'accepts' if cls == 'ok' else 'rejects'} this method although its return type " + why}, True)
@@ -97,11 +97,11 @@ def check(ctx, replay=None):
             goals.append(f"Bool.eqb (accept_params {cfl_c} {clist(['TWrite' if x == 'W' else 'TPrim' for x in ps])}) {cbool(cls == 'ok')}")
             meta.append((None, "c", False, cls, src))
             want_ok = "W" not in ps[:-1]
-            if (cls == "ok") != want_ok and viol < 3:
+            if (cls == "ok") != want_ok and len(ctx.violations) < 3:
                 viol += 1
                 ctx.violation("direct:write-position", {"bridge": src, "what": f"diplomat-tool {'accepts' if cls == 'ok' else 'rejects'} a method whose parameters are "
                               f"{ps} (W = &mut DiplomatWrite): the writer is {'only allowed' if cls == 'ok' else 'allowed'} as the last parameter"}, True)
-            elif cls == "lowering-error" and "Lowering error in Op::f" not in q.stderr and viol < 3:
+            elif cls == "lowering-error" and "Lowering error in Op::f" not in q.stderr and len(ctx.violations) < 3:
                 viol += 1
                 ctx.violation("direct:error-context", {"bridge": src, "what": "the lowering error does not carry Op::f as its context", "stderr": q.stderr[-500:]}, True)
     # trait methods: their parameters obey the callback-parameter rules (backends with trait support; lifetimes elided, as traits take no generics)
@@ -143,10 +143,51 @@ def check(ctx, replay=None):
                 goals.append(f"Bool.eqb (accept_self {kind} {selfk}) {cbool(cls == 'ok')}")
                 meta.append((None, "c", False, cls, src))
                 want_ok = {"NOpaque": selfk == "SelfRef", "NStruct": selfk == "SelfVal", "NEnum": selfk == "SelfVal", "NZst": False, "NOutStruct": False}[kind]
-                if (cls == "ok") != want_ok and viol < 3:
+                if (cls == "ok") != want_ok and len(ctx.violations) < 3:
                     viol += 1
                     ctx.violation("direct:self-receiver", {"bridge": src, "what": f"diplomat-tool {'accepts' if cls == 'ok' else 'rejects'} `{recv}` on a {kind[1:].lower()} type; "
                                   "opaques are passed by pointer (so only behind a reference), structs and enums by value (so never behind one)"}, True)
+    # signatures over two lifetimes: bounds implied by `&'a T<'b>` (also under Option / Result, in fields) need not be written, bounds a
+    # type definition requires of its parameters must be, an elided lifetime cannot appear in a return type (model: Lifetimes/Model.v, C04)
+    LT_DEFS = ("    #[diplomat::opaque]\n    pub struct Op(pub u8);\n    #[diplomat::opaque]\n    pub struct One<'x>(pub &'x u8);\n"
+               "    pub struct Two<'x, 'y: 'x> { pub a: &'x Op, pub b: &'y Op }\n")
+    C_DS = "[mkDef 0 [] []; mkDef 1 [] []; mkDef 2 [(1, [0])] [TOpaque false false (Some (Lt 0)) 0 []; TOpaque false false (Some (Lt 1)) 0 []]"
+    ref = lambda opt: f"TOpaque false {cbool(opt)} (Some (Lt 0)) 1 [Lt 1]"
+    LT_SHAPES = [
+        ("impl Op { pub fn f<'a, 'b>(x: Option<&'a One<'b>>) -> u8 { 0 } }", f"agree_validate {C_DS}] (mkSig 2 [] [{ref(True)}] [])", True),
+        ("impl Op { pub fn f<'a, 'b>(x: &'a One<'b>) -> Option<&'a One<'b>> { Some(x) } }", f"agree_validate {C_DS}] (mkSig 2 [] [{ref(False)}] [{ref(True)}])", True),
+        ("impl Op { pub fn f<'a, 'b>(x: &'a One<'b>) -> Result<Option<&'a One<'b>>, u8> { Ok(Some(x)) } }", f"agree_validate {C_DS}] (mkSig 2 [] [{ref(False)}] [{ref(True)}])", True),
+        ("impl Op { pub fn f<'a, 'b>(x: &'a One<'b>) -> &'a One<'b> { x } }", f"agree_validate {C_DS}] (mkSig 2 [] [{ref(False)}] [{ref(False)}])", True),
+        ("impl Op { pub fn f<'a, 'b>(x: Option<&'a One<'b>>, y: &'b Op) -> Option<&'a Op> { None } }",
+         f"agree_validate {C_DS}] (mkSig 2 [] [{ref(True)}; TOpaque false false (Some (Lt 1)) 0 []] [TOpaque false true (Some (Lt 0)) 0 []])", True),
+        ("pub struct Sf<'a, 'b> { pub f: Option<&'a One<'b>>, pub g: &'b Op }",
+         f"agree_validate_def ({C_DS}; mkDef 2 [] [{ref(True)}; TOpaque false false (Some (Lt 1)) 0 []]]) 3", True),
+        ("impl Op { pub fn f<'a, 'b>(t: Two<'a, 'b>) -> u8 { 0 } }", f"agree_validate {C_DS}] (mkSig 2 [] [TStruct false 2 [Lt 0; Lt 1]] [])", False),
+        ("impl Op { pub fn f<'a, 'b: 'a>(t: Two<'a, 'b>) -> u8 { 0 } }", f"agree_validate {C_DS}] (mkSig 2 [(1, [0])] [TStruct false 2 [Lt 0; Lt 1]] [])", True),
+        ("impl Op { pub fn f<'a, 'b>(t: Two<'a, 'b>) -> u8 where 'b: 'a { 0 } }", f"agree_validate {C_DS}] (mkSig 2 [(1, [0])] [TStruct false 2 [Lt 0; Lt 1]] [])", True),
+        ("impl Op { pub fn f(&self) -> &Op { self } }", f"agree_validate {C_DS}] (mkSig 0 [] [TOpaque false false (Some (Lt 0)) 0 []] [TOpaque false false (Some (Lt 0)) 0 []])", False),
+        ("impl Op { pub fn f(&self) -> Option<&Op> { None } }", f"agree_validate {C_DS}] (mkSig 0 [] [TOpaque false false (Some (Lt 0)) 0 []] [TOpaque false true (Some (Lt 0)) 0 []])", False),
+        ("impl Op { pub fn f<'a>(&'a self) -> Result<(), &'a Op> { Err(self) } }", f"agree_validate {C_DS}] (mkSig 1 [] [TOpaque false false (Some (Lt 0)) 0 []] [TOpaque false false (Some (Lt 0)) 0 []])", True),
+        ("impl Op { pub fn f(&self) -> Result<(), &Op> { Err(self) } }", f"agree_validate {C_DS}] (mkSig 0 [] [TOpaque false false (Some (Lt 0)) 0 []] [TOpaque false false (Some (Lt 0)) 0 []])", False),
+        ("impl Op { pub fn f<'a, 'b>(&'a self) -> Result<(), Two<'a, 'b>> { todo!() } }", f"agree_validate {C_DS}] (mkSig 2 [] [TOpaque false false (Some (Lt 0)) 0 []] [TStruct false 2 [Lt 0; Lt 1]])", False),
+    ]
+    lgoals, lmeta = [], []
+    for k, (item, goal, want_ok) in enumerate(LT_SHAPES):
+        src = "#[diplomat::bridge]\nmod ffi {\n" + LT_DEFS + "    " + item + "\n}\n"
+        path = os.path.join(d9, f"l{k}.rs"); open(path, "w").write(src)
+        q = e2e.run_tool("c", path, os.path.join(d9, "out"))
+        cls = e2e.classify_tool(q)
+        if cls not in ("ok", "lowering-error"):
+            continue
+        lgoals.append(f"{goal} {cbool(cls == 'ok')}"); lmeta.append(src)
+        if (cls == "ok") != want_ok and len(ctx.violations) < 3:
+            viol += 1
+            ctx.violation("direct:lifetime-shape", {"bridge": src, "stderr": q.stderr[-400:], "what": f"diplomat-tool {'accepts' if cls == 'ok' else 'rejects'} this item; " +
+                          ("it is valid: every bound it needs is implied by a `&'a T<'b>` it contains or is declared" if want_ok else
+                           "it must be rejected: a bound the type requires is not declared / the return type has an elided lifetime")}, True)
+    lfails = run_shards(PROP, "From Coq Require Import List Bool.\nImport ListNotations.\nFrom DV Require Import Lifetimes.Model Lifetimes.Check.", lgoals) if lgoals else []
+    if lfails and not ctx.violations:
+        ctx.violation("gate:lifetime-shapes", {"bridge": lmeta[lfails[0]], "what": "Lifetimes/Model.v validate disagrees with the tool on this item: " + lgoals[lfails[0]][:300]}, False)
     fails = run_shards(PROP, HEADER, goals, per_shard=400) if goals else []
     seen = set()
     for f in fails:
@@ -169,7 +210,7 @@ def check(ctx, replay=None):
                       f"diplomat-tool {meta[f][1]} answers `{meta[f][3]}` on this bridge; Gate/Model.v (return-lifetime rules, write position, receivers, "
                       f"trait method parameters) says otherwise: {goals[f][:300]}"}, True)
     return batch_evidence(
-        ctx, PROP, phase, goals, fails, len(goals), len({(c[0], json.dumps(c[1])) for c in cs}),
+        ctx, PROP, phase, goals + lgoals, fails + [len(goals) + f for f in lfails], len(goals) + len(lgoals), len({(c[0], json.dumps(c[1])) for c in cs}),
         "exhaustive enumeration of the AST type grammar to depth 2 (4 primitives, Ordering, unit, the five kinds of named types, borrowed / 'static / owned "
         "/ Diplomat-spelled str and primitive slices, string-list slices; under &, Box, Option, DiplomatOption, twice; Result over 12x8 arm combinations, "
         "nested Results) x 6 positions (parameter, return, struct field, out-struct field, callback parameter, callback return): every valid shape must be "
